@@ -86,7 +86,14 @@ pub fn install_panic_hook() {
             let message = String::from_utf8_lossy(message.as_bytes()).into_owned();
             let location = info.location().map(|l| format!("{}:{}", l.file(), l.line())).unwrap_or_default();
             let bt = std::backtrace::Backtrace::force_capture().to_string();
-            let frame = first_repo_frame(&bt);
+            let mut frame = first_repo_frame(&bt);
+            // a panic raised inside a dependency is identified by the dependency's file as well (crate-version/.../file, no line)
+            if !location.starts_with(repo_prefix()) && !location.starts_with("octo-squirrel") {
+                let file = location.rsplit_once(':').map(|(f, _)| f).unwrap_or(&location);
+                let tail: Vec<&str> = file.rsplit('/').take(4).collect();
+                let tail: Vec<&str> = tail.into_iter().rev().collect();
+                frame = format!("{frame}@{}", tail.join("/"));
+            }
             let node = world::current_node();
             let harness_bug = location.starts_with("src/") || location.contains("/verif/");
             if harness_bug {
@@ -157,6 +164,45 @@ pub struct RunOutput<R> {
     pub entropy_draws: u64,
 }
 
+// ---------------------------------------------------------------- livelock watchdog
+//
+// A task that spins without ever returning `Pending` (or a set of tasks that keep waking each other while no
+// simulated time can pass) never hands control back to the simulator: the run would hang in real time. A watchdog
+// OS thread looks at two wall-clock stamps - start of the task poll in progress, start of the world in progress -
+// and reports the plan being executed as a livelock when one of them is older than its limit. The limits are
+// orders of magnitude above anything a healthy run needs (a poll takes microseconds, a world milliseconds to
+// seconds), so machine load cannot trip them.
+
+use std::sync::atomic::AtomicU64;
+use std::sync::atomic::Ordering;
+
+static POLL_START_MS: AtomicU64 = AtomicU64::new(0);
+static WORLD_START_MS: AtomicU64 = AtomicU64::new(0);
+
+fn wall_ms() -> u64 {
+    static T0: std::sync::OnceLock<std::time::Instant> = std::sync::OnceLock::new();
+    T0.get_or_init(std::time::Instant::now).elapsed().as_millis() as u64 + 1
+}
+
+/// Start the watchdog thread; `report(kind, seconds)` is called once, from the watchdog thread, and must not return.
+pub fn start_watchdog(report: impl Fn(&str, u64) + Send + 'static) {
+    let poll_limit_ms = std::env::var("VERIF_POLL_LIMIT_S").ok().and_then(|s| s.parse::<u64>().ok()).unwrap_or(20) * 1000;
+    let world_limit_ms = std::env::var("VERIF_WORLD_LIMIT_S").ok().and_then(|s| s.parse::<u64>().ok()).unwrap_or(300) * 1000;
+    wall_ms();
+    std::thread::spawn(move || loop {
+        std::thread::sleep(std::time::Duration::from_millis(250));
+        let now = wall_ms();
+        let p = POLL_START_MS.load(Ordering::Relaxed);
+        if p != 0 && now.saturating_sub(p) > poll_limit_ms {
+            report("one task poll never returned", (now - p) / 1000);
+        }
+        let w = WORLD_START_MS.load(Ordering::Relaxed);
+        if w != 0 && now.saturating_sub(w) > world_limit_ms {
+            report("one simulated world did not finish", (now - w) / 1000);
+        }
+    });
+}
+
 /// Run `f` to completion inside a fresh simulated world.
 pub fn run_sim<F, Fut, R>(seed: u64, net_seed: u64, knobs: Knobs, f: F) -> RunOutput<R>
 where
@@ -192,6 +238,7 @@ where
         .on_before_task_poll(|meta| {
             TASKS.with(|t| {
                 let mut t = t.borrow_mut();
+                POLL_START_MS.store(wall_ms(), Ordering::Relaxed);
                 if let Some(&(ord, node)) = t.nodes.get(&meta.id()) {
                     world::set_current_node(node);
                     t.polls += 1;
@@ -200,6 +247,7 @@ where
             });
         })
         .on_after_task_poll(|_| {
+            POLL_START_MS.store(0, Ordering::Relaxed);
             world::set_current_node(NODE_HARNESS);
         })
         .on_task_terminate(|meta| {
@@ -215,6 +263,7 @@ where
         .build()
         .expect("runtime");
 
+    WORLD_START_MS.store(wall_ms(), Ordering::Relaxed);
     let (result, sim_ns) = rt.block_on(async {
         // the world's clock starts with the runtime's (paused) clock
         world::install(World::new(net_seed, knobs));
@@ -227,6 +276,8 @@ where
         (r, sim_ns)
     });
     drop(rt);
+    WORLD_START_MS.store(0, Ordering::Relaxed);
+    POLL_START_MS.store(0, Ordering::Relaxed);
     let world = world::uninstall().expect("world");
     let (polls, poll_hash, tasks_spawned) = TASKS.with(|t| {
         let t = t.borrow();
